@@ -49,6 +49,17 @@ func contexts(t testing.TB) []*lib.Ctx {
 			}
 			ctxAll = append(ctxAll, c)
 		}
+		hf, err := refdict.Parse("hier", lib.HierXML)
+		if err != nil {
+			ctxErr = err
+			return
+		}
+		hc, err := lib.Load("base+hier", fs[0], hf)
+		if err != nil {
+			ctxErr = err
+			return
+		}
+		ctxAll = append(ctxAll, hc)
 		gf, err := refdict.Parse("gen", lib.GenXML)
 		if err != nil {
 			ctxErr = err
